@@ -94,6 +94,41 @@ def worker_exits_with_nothing_to_pop(prog, res):
               "and still queued are never executed")
 
 
+def allocation_sizes_do_not_wrap(prog, res):
+    """T12: the pool sizes its queue and its thread-handle array with `count * sizeof(element)` in size_t, from counts the caller
+    chooses (ZSTD_createThreadPool is public).  Every such allocation is reached only past a comparison of a parameter with a
+    constant of the order of SIZE_MAX / sizeof (the edge on which the product cannot wrap)."""
+    R = "T12.allocation-size-no-wrap"
+    n = 0
+    for f in prog.fns_in("common/pool.c"):
+        for b, i, c in f.calls(("ZSTD_customCalloc", "ZSTD_customMalloc")):
+            a = strip_casts(f.resolve_x(c["a"][0]))
+            if a is None or const_val(a) is not None:
+                continue            # sizeof(object)
+            if not (a.get("k") == "bin" and a.get("op") == "*"):
+                continue
+            n += 1
+            from ..rules import guards as _g6
+            big = lambda b_: isinstance(const_val(strip_casts(b_)), int) and const_val(strip_casts(b_)) >= (1 << 40)
+            # which parameter(s) the count comes from: directly, or through a field assigned from a parameter in this function
+            cnt = [x for x in (a["lhs"], a["rhs"]) if const_val(strip_casts(f.resolve_x(x))) is None]
+            pis = set()
+            for x in cnt:
+                for y in f.walk_deep(x):
+                    if y.get("k") == "ref" and y.get("rk") == "p":
+                        pis.add(y.get("pi"))
+                    if y.get("k") == "mem":
+                        for bb, ii, z in f.events(lambda w_: w_.get("k") == "asg" and strip_casts(w_["lhs"]).get("k") == "mem" and strip_casts(w_["lhs"]).get("f") == y.get("f")):
+                            pis |= {q.get("pi") for q in f.walk_deep(z["rhs"]) if q.get("k") == "ref" and q.get("rk") == "p"}
+            isparam = lambda x: any(y.get("k") == "ref" and y.get("rk") == "p" and y.get("pi") in pis for y in f.walk_deep(x))
+            safe = _g6.rel_edges(f, isparam, ">", big, truth=False) + _g6.rel_edges(f, isparam, ">=", big, truth=False)
+            res.check(bool(safe) and f.must_pass(via_edges=safe, targets=[(b, i)]), R, "%s@%s" % (f.name, c.get("l")), f.loc,
+                      "the count was compared with SIZE_MAX / sizeof before the product is formed",
+                      "%s allocates `count * sizeof(..)` from a caller-chosen count without a wrap test: ZSTD_createThreadPool(2^61+1) gets 8 bytes for its thread handles and "
+                      "keeps creating threads past them; POOL_create(1, SIZE_MAX/16) gets a zero-sized queue that POOL_add writes into" % f.name)
+    res.need(R, 3)
+
+
 def emptiness_flag(prog, res):
     """T9: a pool created with queueSize 0 has a one-slot ring: queueHead == queueTail holds both when the slot is free and
     when it is taken, and `queueEmpty` is the only record of a pending job.  Outside the two places that DEFINE the flags
@@ -176,6 +211,7 @@ def run(tier):
     aio_quiescent(prog, res)
     aio_worker_state_after_join(prog, res)
     worker_exits_with_nothing_to_pop(prog, res)
+    allocation_sizes_do_not_wrap(prog, res)
     res.need("T2.wait-loop(aio)", 1)
     res.need("T1.guarded-by(aio)", 6)
 
